@@ -216,6 +216,17 @@ mut("m18-ssa-stringwriter-fast-path-drops-error", "C18", "a sink that offers io.
 			return
 		}"""))
 
+mut("m18-cli-convert-ignores-write-error", "C18", "the command line tool converting to a destination that cannot be written",
+    ("astisub/main.go", """	case "convert":
+		// Write
+		if err = sub.Write(*outputPath); err != nil {
+			log.Fatalf("%s while writing to %s", err, *outputPath)
+		}""", """	case "convert":
+		// Write
+		if err = sub.Write(*outputPath); err != nil {
+			log.Printf("%s while writing to %s", err, *outputPath)
+		}"""))
+
 # ------------------------------------------------------------------ C19
 mut("m19-revert-d6-ssa-format-map-order", "C19", "styles with different attribute sets and a non-sorted map order",
     ("ssa.go", """		for _, id := range styleIDs {
